@@ -682,6 +682,10 @@ class Interp:
         if ty.get("c") == "eigen":
             if len(args) == 1:
                 v = self.ev(args[0], env)
+                if isinstance(v, sp.Basic) and ty.get("rows") == -1:
+                    cont = self.make_value("local", ty)
+                    cont.size = v
+                    return cont
                 return self.copyval(v)
             if not args:
                 return self.make_value("tmp", ty, symbolic=False)
